@@ -57,7 +57,87 @@ func (pr *probe) HandleObjectValue(key, data []byte) (int, error) {
 
 type sentinelErr struct{ id int }
 
-func (e *sentinelErr) Error() string { return fmt.Sprintf("handler sentinel error #%d", e.id) }
+func (e *sentinelErr) Error() string {
+	if e == nil {
+		return "handler sentinel error (typed nil)"
+	}
+	return fmt.Sprintf("handler sentinel error #%d", e.id)
+}
+
+// libraryErrors collects error VALUES that the library itself returns, obtained through its
+// public API. A handler that delegates to SkipValue / a nested traversal / a reader and
+// passes the error up returns exactly these values, and they must come back unchanged too
+// (seeded change C09r2-m1 rewrote a handler error only when it was identical to the library's
+// own "unexpected end of json").
+func libraryErrors() []error {
+	var out []error
+	add := func(e error) {
+		if e == nil {
+			return
+		}
+		for _, x := range out {
+			if x == e {
+				return
+			}
+		}
+		out = append(out, e)
+	}
+	_, e := rjson.SkipValue([]byte("[1,[2,3"), nil)
+	add(e)
+	_, e = rjson.SkipValue([]byte(`{"a":`), nil)
+	add(e)
+	_, e = rjson.SkipValue([]byte("x"), nil)
+	add(e)
+	_, e = rjson.SkipValue([]byte(""), nil)
+	add(e)
+	_, e = rjson.SkipValue(bytes.Repeat([]byte("["), 10002), nil)
+	add(e)
+	_, e = rjson.SkipValueFast([]byte("[1,"), nil)
+	add(e)
+	_, e = rjson.HandleArrayValues([]byte("x"), nopArrayHandler{}, nil)
+	add(e)
+	_, e = rjson.HandleArrayValues([]byte("[1,"), nopArrayHandler{}, nil)
+	add(e)
+	_, e = rjson.HandleArrayValues([]byte("[[1,"), nopArrayHandler{}, nil)
+	add(e)
+	_, e = rjson.HandleObjectValues([]byte("x"), nopObjectHandler{}, nil)
+	add(e)
+	_, e = rjson.HandleObjectValues([]byte(`{"a":{"b":`), nopObjectHandler{}, nil)
+	add(e)
+	_, e = rjson.HandleArrayValues([]byte(`["a"]`), rjson.ArrayValueHandlerFunc(func([]byte) (int, error) { return -1, nil }), nil)
+	add(e)
+	_, e = rjson.ReadNull([]byte("x"))
+	add(e)
+	_, _, e = rjson.ReadBool([]byte("x"))
+	add(e)
+	_, _, e = rjson.ReadFloat64([]byte("x"))
+	add(e)
+	_, _, e = rjson.ReadFloat64([]byte("1e999"))
+	add(e)
+	_, _, e = rjson.ReadInt64([]byte("x"))
+	add(e)
+	_, _, e = rjson.ReadUint64([]byte("-1"))
+	add(e)
+	_, _, e = rjson.ReadString([]byte("x"), nil)
+	add(e)
+	_, _, e = rjson.ReadString([]byte(`"abc`), nil)
+	add(e)
+	_, _, e = rjson.NextToken([]byte(""))
+	add(e)
+	_, _, e = rjson.NextToken([]byte("x"))
+	add(e)
+	_, _, e = rjson.ReadValue([]byte("[1,"))
+	add(e)
+	_, _, e = rjson.ReadObject([]byte("null"))
+	add(e)
+	_, _, e = rjson.ReadArray([]byte("null"))
+	add(e)
+	_, _, e = rjson.UnescapeStringContent([]byte(`a\x`), nil)
+	add(e)
+	var typedNil *sentinelErr
+	out = append(out, typedNil) // a non-nil error interface holding a nil pointer
+	return out
+}
 
 // memberEnds caches, per absolute offset, the model's end of the value starting there
 // (relative to that offset), or -1 if no well-formed value starts there.
@@ -216,6 +296,14 @@ var errorOffsets = func(exact, n int) []int {
 // C09: a handler error stops the traversal and is returned unchanged.
 func RunC09(c *Ctx) {
 	var long rjson.Buffer
+	libErrs := libraryErrors()
+	c.Rec.Max("max_library_error_values_used_as_handler_errors", int64(len(libErrs)))
+	errCounter := 0
+	if !c.Thorough() {
+		// error propagation does not depend on the fine structure of malformed neighbours: a third
+		// of the byte sweep (rotating with the seed) is enough in the quick tier
+		c.Filter = func(cs *h.Case) bool { return cs.Family != "W1" || (cs.P[0]+int(c.Seed))%3 == 0 }
+	}
 	c.RunDocs([]string{"W3", "W1", "W4", "W5small"}, func(cs *h.Case) {
 		d := cs.Input
 		me := &memberEnds{doc: d, m: map[int]int{}}
@@ -258,7 +346,14 @@ func RunC09(c *Ctx) {
 					offs = []int{offs[r.Intn(len(offs))], offs[r.Intn(len(offs))], offs[r.Intn(len(offs))]}
 				}
 				for _, off := range offs {
-					sentinel := &sentinelErr{id: k}
+					// the error the handler returns: a fresh sentinel most of the time, and in rotation one
+					// of the library's own error values (or a typed-nil error)
+					var sentinel error = &sentinelErr{id: k}
+					errCounter++
+					if errCounter%3 == 0 {
+						sentinel = libErrs[(errCounter/3)%len(libErrs)]
+						c.Rec.C("handler_returned_a_library_error_value")
+					}
 					pr := &probe{doc: d}
 					pr.answer = func(i, o int, data []byte) (int, error) {
 						if i == k {
@@ -290,18 +385,18 @@ func RunC09(c *Ctx) {
 					}
 					c.Rec.C("error_returns_observed")
 					c.Rec.C("failing_member_" + memberKindAt(d, pr.log[k].Off))
-					script := fmt.Sprintf("fail at call %d with offset %d", k, off)
+					script := fmt.Sprintf("fail at call %d with offset %d and error %q (%T)", k, off, errStr(sentinel), sentinel)
 					viol := func(oracle, exp, obs string) {
 						c.Rec.AddViolation(h.Violation{Property: c.Prop, Oracle: oracle, Entry: kindName[kind], Family: cs.Family, Desc: cs.Describe(), InputB64: b64(d), InputQ: h.Quote(d), Script: script, Expected: exp, Observed: obs, Seed: c.Seed, Tier: c.Tier})
 					}
-					if err != error(sentinel) {
-						viol(kindName[kind]+" does not return the handler's error value unchanged", fmt.Sprintf("the handler's own error %p", sentinel), fmt.Sprintf("p=%d err=%s (%T)", p, errStr(err), err))
+					if err != sentinel {
+						viol(kindName[kind]+" does not return the handler's error value unchanged", fmt.Sprintf("the handler's own error %q (%T)", errStr(sentinel), sentinel), fmt.Sprintf("p=%d err=%s (%T)", p, errStr(err), err))
 					}
 					if len(pr.log) != k+1 {
 						viol(kindName[kind]+" calls the handler again after it returned an error", fmt.Sprintf("%d calls", k+1), fmt.Sprintf("%d calls: %s", len(pr.log), logString(pr.log)))
 					}
 					if c.Rec.WantSample() && c.Rec.R.Cases%3001 == 1 && k > 0 {
-						c.Rec.Sample(map[string]interface{}{"input": h.Quote(d), "how": cs.Describe(), "entry": kindName[kind], "program": script, "returned_error_is_sentinel": err == error(sentinel), "calls": len(pr.log)})
+						c.Rec.Sample(map[string]interface{}{"input": h.Quote(d), "how": cs.Describe(), "entry": kindName[kind], "program": script, "handler_error": errStr(sentinel), "returned_error_is_identical": err == sentinel, "calls": len(pr.log)})
 					}
 				}
 			}
